@@ -1,0 +1,24 @@
+//go:build verif
+
+package local
+
+import (
+	"github.com/mutagen-io/mutagen/pkg/filesystem"
+	"github.com/mutagen-io/mutagen/pkg/synchronization"
+	"github.com/mutagen-io/mutagen/pkg/synchronization/core"
+)
+
+// This file is add-only verification scaffolding (build tag "verif"). It only
+// exposes fields of an endpoint for reading and changes no behaviour of the
+// package.
+
+// VerifEffectivePermissions returns the permissions mode and the default file
+// and directory modes a local endpoint computed for itself in NewEndpoint. The
+// last result is false if the argument is not a local endpoint.
+func VerifEffectivePermissions(e synchronization.Endpoint) (core.PermissionsMode, filesystem.Mode, filesystem.Mode, bool) {
+	le, ok := e.(*endpoint)
+	if !ok {
+		return 0, 0, 0, false
+	}
+	return le.permissionsMode, le.defaultFileMode, le.defaultDirectoryMode, true
+}
